@@ -31,10 +31,11 @@ type schedX struct {
 	obs []string
 	v   []rt.Violation
 	// C01 bookkeeping
-	swapOK   map[int]int    // proof index -> successful swaps containing it
-	meltOf   map[int][]int  // proof index -> melt indices that were called with it
-	meltErr  map[int]string // melt index -> error code of the MeltTokens call(s)
-	checks   [][]string     // successive ProofsStateCheck observations (state names) per check thread call
+	swapOK   map[int]int      // proof index -> successful swaps containing it
+	meltOf   map[int][]int    // proof index -> melt indices that were called with it
+	meltPay  map[int][]payAns // proof index -> backend answers to the payment attempts of the requests that carried it
+	meltErr  map[int]string   // melt index -> error code of the MeltTokens call(s)
+	checks   [][]string       // successive ProofsStateCheck observations (state names) per check thread call
 	checkIdx []int
 	// C03 bookkeeping
 	mintOK      map[int]int
@@ -46,6 +47,11 @@ type schedX struct {
 	kindsAll    []string
 	freeRun     bool
 	mu          sync.Mutex
+}
+
+type payAns struct {
+	ans string
+	mi  int
 }
 
 func (x *schedX) note(format string, a ...any) {
@@ -112,6 +118,7 @@ func (x *schedX) thMelt(name string, mi int, ins []int) {
 		x.meltOf[n] = append(x.meltOf[n], mi)
 	}
 	x.s.Go(name, func() {
+		me := dbwrap.GID()
 		res, err := w.M.M.MeltTokens(context.Background(), nut05.PostMeltBolt11Request{Quote: w.Melts[mi].Q.Id, Inputs: proofs})
 		st := ""
 		if err == nil {
@@ -119,6 +126,14 @@ func (x *schedX) thMelt(name string, mi int, ins []int) {
 		}
 		x.mu.Lock()
 		defer x.mu.Unlock()
+		// the answer the backend gave to THIS request's payment attempt (several requests may try the same quote)
+		for _, c := range w.LN.Calls {
+			if c.G == me && (c.Method == "SendPayment" || c.Method == "PayPartialAmount") {
+				for _, n := range ins {
+					x.meltPay[n] = append(x.meltPay[n], payAns{c.Answer, mi})
+				}
+			}
+		}
 		x.note("%s melt(mq%d,%v) -> %s%s", name, mi, ins, errc(err), st)
 		x.meltErr[mi] = errc(err)
 		x.outcomeBits = append(x.outcomeBits, name+"="+errc(err)+st)
@@ -251,7 +266,7 @@ func execSched(sc *schedScn, prefix []int) (res sched.Res) {
 	}
 	defer w.Close()
 	s := sched.New(prefix)
-	x := &schedX{scn: sc.name, w: w, s: s, swapOK: map[int]int{}, meltOf: map[int][]int{}, meltErr: map[int]string{}, mintOK: map[int]int{}, mintSum: map[int]uint64{}, mintEarly: map[int]bool{}}
+	x := &schedX{scn: sc.name, w: w, s: s, swapOK: map[int]int{}, meltOf: map[int][]int{}, meltPay: map[int][]payAns{}, meltErr: map[int]string{}, mintOK: map[int]int{}, mintSum: map[int]uint64{}, mintEarly: map[int]bool{}}
 	prevAfter := w.M.DB.After
 	w.M.DB.Before = func(c *dbwrap.Call) error { s.Point("db:" + c.Name); return nil }
 	w.M.DB.After = prevAfter
@@ -306,11 +321,23 @@ func oracleC01(used []int) func(x *schedX) {
 		for _, n := range used {
 			acc := x.swapOK[n]
 			kinds := strings.Repeat("swap+", x.swapOK[n])
-			for _, mi := range x.meltOf[n] {
-				m := w.Melts[mi]
-				if p := w.LN.Payments[m.Hash]; p != nil && (p.Status == lnmodel.Succeeded || p.Status == lnmodel.Pending) {
+			// a melt request consumed the proof if the backend's answer to ITS payment attempt was success or pending (in
+			// flight; the ledger then tells how it ended) — an attempt that failed outright consumed nothing, whatever other
+			// requests did with the same quote
+			for _, pa := range x.meltPay[n] {
+				ans := pa.ans
+				if ans != "Succeeded" && ans != "Pending" {
+					continue
+				}
+				status := ans
+				if ans == "Pending" {
+					if p := w.LN.Payments[w.Melts[pa.mi].Hash]; p != nil {
+						status = p.Status.String()
+					}
+				}
+				if status == "Succeeded" || status == "Pending" {
 					acc++
-					kinds += "melt(" + p.Status.String() + ")+"
+					kinds += "melt(" + status + ")+"
 				}
 			}
 			// final state through the API (backend answers truthfully)
@@ -547,6 +574,23 @@ func init() {
 		x.thMelt("B", 0, []int{1})
 		x.thSwap("C", []int{1}, "")
 	}, oracle: oracleC01([]int{1})})
+	for _, st := range []struct {
+		name   string
+		status lnmodel.Answer
+	}{{"S12f-meltfails-remelt-swap", lnmodel.Failed}, {"S12n-meltnotfound-remelt-swap", lnmodel.NotFound}} {
+		st := st
+		addScn(&schedScn{name: st.name, prop: "C01", setup: func(x *schedX) {
+			// two melt requests on ONE quote with different inputs: the first payment attempt fails (status lookup: failed /
+			// not found), the second goes in flight; a swap then tries the second request's input
+			must(x.w, "fund|8,8", "meltq|4")
+			h := x.w.Melts[0].Hash
+			x.w.LN.PayScript[h] = []lnmodel.Answer{lnmodel.Failed, lnmodel.Pending}
+			x.w.LN.StatusScript[h] = []lnmodel.Answer{st.status}
+			x.thMelt("A", 0, []int{0})
+			x.thMelt("B", 0, []int{1})
+			x.thSwap("C", []int{1}, "")
+		}, oracle: oracleC01([]int{1})})
+	}
 	addScn(&schedScn{name: "S7-swap-swap-melt", prop: "C01", setup: func(x *schedX) {
 		must(x.w, "fund|8,8", "meltq|4")
 		x.thSwap("A", []int{0}, "")
@@ -671,10 +715,21 @@ func schedWorker(job json.RawMessage) (any, error) {
 	if sc == nil {
 		return nil, fmt.Errorf("unknown scenario %q", j.Scn)
 	}
-	if sc.custom != nil {
-		return sc.custom(j.Prefix), nil
+	// a prefix that does not replay (the enabled set at some step differed: a thread was seen blocked / not blocked at a
+	// different moment) is a harness-level timing problem, not a property of the code: the execution is repeated on a
+	// fresh instance before it is given up as a harness error
+	var res sched.Res
+	for attempt := 0; attempt < 4; attempt++ {
+		if sc.custom != nil {
+			res = sc.custom(j.Prefix)
+		} else {
+			res = execSched(sc, j.Prefix)
+		}
+		if !strings.Contains(res.Err, "diverging prefix") && !strings.Contains(res.Err, "watchdog") {
+			break
+		}
 	}
-	return execSched(sc, j.Prefix), nil
+	return res, nil
 }
 
 // dispatchWorker serves both engines of a property: BFS jobs carry "Spec", scheduler jobs carry "Scn".
@@ -770,7 +825,7 @@ func RacePass(prop string, n int) int {
 				}
 				defer w.Close()
 				s := sched.New(nil)
-				x := &schedX{scn: sc.name, w: w, s: s, swapOK: map[int]int{}, meltOf: map[int][]int{}, meltErr: map[int]string{}, mintOK: map[int]int{}, mintSum: map[int]uint64{}, mintEarly: map[int]bool{}}
+				x := &schedX{scn: sc.name, w: w, s: s, swapOK: map[int]int{}, meltOf: map[int][]int{}, meltPay: map[int][]payAns{}, meltErr: map[int]string{}, mintOK: map[int]int{}, mintSum: map[int]uint64{}, mintEarly: map[int]bool{}}
 				x.freeRun = true
 				sc.setup(x)
 				s.RunFree()
